@@ -69,7 +69,7 @@ theorem dangling_fails (w : World) (fuel : Nat) (cx : Loc) (o : Obj) (n : Node) 
     (resolve w (fuel + 1) cx o s).isOk = false := by
   simp only [resolve, hn, hr, hv, hp, loadDoc, hd, he, ht]
   simp only [Option.isSome_none, Bool.false_eq_true, if_false]
-  split <;> rfl
+  rfl
 
 /-- (3b) A reference whose target is of another kind makes the resolution fail. -/
 theorem wrong_kind_fails (w : World) (fuel : Nat) (cx cx' : Loc) (o tgt : Obj) (n tn : Node) (t : Text) (s : St)
@@ -87,15 +87,15 @@ theorem wrong_kind_fails (w : World) (fuel : Nat) (cx cx' : Loc) (o tgt : Obj) (
 
 theorem skeleton_table_recognised : ∀ r ∈ KinModel.Gen.resolverSkeleton, r.isRow = true := by decide
 
-/-- every routine has the steps of `resolve` (value check, shouldVisitRef, visitRef, single-element branch,
-    resolveComponent, deferred unvisitRef); only path items lack the recursive call on the copy; exactly
-    security schemes, examples and links do not move `documentPath` on a whole-file load; and each routine calls
-    the resolvers of `walkCalls` on child positions, in that order -/
+/-- the table has exactly the ten routines, the two walk helpers and `ResolveRefsIn`; every routine has, statement
+    by statement, the `$ref` block that `resolve` models (`LoaderJson.skeletonSteps`: value check, callback with an
+    ok-checked assertion, visitRef, whole-file branch that moves `documentPath`, fragment branch with the local copy
+    and the recursive call — for path items in the switched context and only for a reference copy —, deferred
+    unvisitRef last), and calls the resolvers / helpers of `walkCalls` on child positions, in that order, each
+    with `(doc, _, documentPath)` -/
 theorem skeleton_matches_model :
     KinModel.Gen.resolverSkeleton =
-      KinModel.LoaderJson.kindsByGoName.map (fun k =>
-        KinModel.Gen.ResolverRow.row (KinModel.LoaderJson.goName k) (KinModel.LoaderJson.skeletonFlags k)
-          ((KinModel.LoaderJson.walkCalls k).map KinModel.LoaderJson.goName)) := by decide
+      KinModel.LoaderJson.expectedSkeleton.map (fun r => KinModel.Gen.ResolverRow.row r.1 r.2.1 r.2.2) := by decide
 
 /-! ### Witnesses: the full statement fails of the code, inside each exclusion -/
 
@@ -103,8 +103,8 @@ theorem skeleton_matches_model :
     text 8 = "../b/b.json#/T". Objects: 0 root X = {$ref 7}; 1 a/x.json S (child 2 = {$ref 8}); 3 b/b.json T
     (child 4 = {$ref 7}); 5 b/x.json S. -/
 def w29 : World where
-  nodes := [⟨.schema, some 7, [], [], 0, none⟩, ⟨.schema, none, [2], [], 1, none⟩, ⟨.schema, some 8, [], [], 1, none⟩,
-            ⟨.schema, none, [4], [], 2, none⟩, ⟨.schema, some 7, [], [], 2, none⟩, ⟨.schema, none, [], [], 3, none⟩]
+  nodes := [⟨.schema, some 7, [], 0, none⟩, ⟨.schema, none, [2], 1, none⟩, ⟨.schema, some 8, [], 1, none⟩,
+            ⟨.schema, none, [4], 2, none⟩, ⟨.schema, some 7, [], 2, none⟩, ⟨.schema, none, [], 3, none⟩]
   roots := fun | 0 => [0] | 1 => [1] | 2 => [3] | 3 => [5] | _ => []
   docOf := fun c t => match t with
     | 7 => if c ≤ 1 then some 1 else some 3
@@ -119,50 +119,46 @@ theorem w29_model : (match load w29 20 0 with | .ok s => (s.get 4, s.foreign) | 
 theorem w29_spec : designates w29 5 4 = some 5 := by decide
 theorem w29_text_not_global : ¬ TextIsGlobal w29 := by
   intro h
-  have := h 0 4 ⟨.schema, some 7, [], [], 0, none⟩ ⟨.schema, some 7, [], [], 2, none⟩ 7 rfl rfl rfl rfl rfl
+  have := h 0 4 ⟨.schema, some 7, [], 0, none⟩ ⟨.schema, some 7, [], 2, none⟩ 7 rfl rfl rfl rfl rfl
   simp [w29] at this
 
-/-- #12. Objects: 0 response A = {$ref 0}; 1 response B (child 2); 2 header h = {$ref 0} (the same text). -/
-def w12 : World where
-  nodes := [⟨.response, some 0, [], [], 0, none⟩, ⟨.response, none, [2], [], 0, none⟩, ⟨.header, some 0, [], [], 0, none⟩]
-  roots := fun _ => [0, 1]
-  docOf := fun _ _ => none
-  target := fun _ _ _ => some (0, 1)
+/-- F-C02-48 (what a04fe6c left of #12). Contexts 0 = /r/a/root.json, 1 = /r/a/x.json; text 0 =
+    "x.json#/components/responses/B". Objects: 0 root response A = {$ref 0}; 1 x.json response B (child 2);
+    2 header h = {$ref 0} — the same text, met while it is in progress as a response reference. Its callback finds a
+    value of another kind and returns; x.json is never walked again. -/
+def w48 : World where
+  nodes := [⟨.response, some 0, [], 0, none⟩, ⟨.response, none, [2], 1, none⟩, ⟨.header, some 0, [], 1, none⟩]
+  roots := fun | 0 => [0] | 1 => [1] | _ => []
+  docOf := fun _ _ => some 1
+  target := fun _ _ _ => some (1, 1)
 
-/-- the header reference is of the wrong kind (it designates nothing) but loading panics instead of failing -/
-theorem w12_model_panics : (match load w12 20 0 with | .panic _ => true | _ => false) = true := by decide
-theorem w12_spec : designates w12 5 2 = none := by decide
-theorem w12_kind_clash : ¬ NoKindClash w12 := by
+/-- the header reference is of the wrong kind (it designates nothing), yet the document loads and the reference
+    stays without value -/
+theorem w48_model_loads_unresolved :
+    (match load w48 20 0 with | .ok s => (s.get 0, s.get 2, s.nskip != 0, s.foreign) | _ => (none, some 0, false, true))
+      = (some 1, none, true, false) := by decide
+theorem w48_spec : designates w48 5 2 = none := by decide
+theorem w48_kind_clash : ¬ NoKindClash w48 := by
   intro h
-  have := h 0 2 ⟨.response, some 0, [], [], 0, none⟩ ⟨.header, some 0, [], [], 0, none⟩ 0 rfl rfl rfl rfl
+  have := h 0 2 ⟨.response, some 0, [], 0, none⟩ ⟨.header, some 0, [], 1, none⟩ 0 rfl rfl rfl rfl
   simp at this
-
-/-- #13. Object 0: a response value whose child 1 (a header under content.encoding) is never visited. -/
-def w13 : World where
-  nodes := [⟨.response, none, [], [1], 0, none⟩, ⟨.header, some 0, [], [], 0, none⟩, ⟨.header, none, [], [], 0, none⟩]
-  roots := fun _ => [0, 2]
-  docOf := fun _ _ => none
-  target := fun _ _ _ => some (0, 2)
-
-theorem w13_model_unresolved : (match load w13 20 0 with | .ok s => s.get 1 | _ => some 0) = none := by decide
-theorem w13_spec : designates w13 5 1 = some 2 := by decide
 
 /-- #34. Object 0 = {$ref 0} pointing at itself (object 1 is the resolver's local copy): loads, stays unresolved. -/
 def w34 : World where
-  nodes := [⟨.schema, some 0, [], [], 0, none⟩, ⟨.schema, some 0, [], [], 0, some 0⟩]
+  nodes := [⟨.schema, some 0, [], 0, none⟩, ⟨.schema, some 0, [], 0, some 0⟩]
   roots := fun _ => [0]
   docOf := fun _ _ => none
   target := fun _ _ _ => some (0, 1)
 
-theorem w34_model_loads_unresolved : (match load w34 20 0 with | .ok s => (s.get 0).isNone | _ => false) = true := by decide
+theorem w34_model_loads_unresolved : (match load w34 20 0 with | .ok s => (s.get 0).isNone && s.nnil != 0 | _ => false) = true := by decide
 theorem w34_spec : ∀ f, f ≤ 8 → designates w34 f 0 = none := by decide
 
 /-- #47 (second walk in the referring context). Contexts 0 = /r/b/y.json (root), 1 = /r/x.json. Objects: 0 root A =
     {$ref 0} ("../x.json#/S"); 1 x.json S (child 2); 2 = {$ref 1} ("../r/b/y.json#/A", fine from /r, a missing
     file from /r/b); 3 the resolver's copy of object 0. -/
 def w47 : World where
-  nodes := [⟨.schema, some 0, [], [], 0, none⟩, ⟨.schema, none, [2], [], 1, none⟩, ⟨.schema, some 1, [], [], 1, none⟩,
-            ⟨.schema, some 0, [], [], 0, some 0⟩]
+  nodes := [⟨.schema, some 0, [], 0, none⟩, ⟨.schema, none, [2], 1, none⟩, ⟨.schema, some 1, [], 1, none⟩,
+            ⟨.schema, some 0, [], 0, some 0⟩]
   roots := fun | 0 => [0] | 1 => [1] | _ => []
   docOf := fun c t => match t with
     | 0 => some 1
@@ -183,13 +179,52 @@ theorem w47_text_global : TextIsGlobal w47 := by
   obtain ⟨h3, h4⟩ := key b nb hb t hrb
   rw [h1, h2, h3, h4]
 
+/-! ### Regressions: former witnesses of repaired defects — model and specification now agree on them
+(their inputs stay in corpus/C02 and are replayed against the real loader on every run) -/
+
+/-- #12 / F-C02-12 (fixed a04fe6c). Objects: 0 response A = {$ref 0}; 1 response B (child 2); 2 header h = {$ref 0}
+    (the same text). The callback of the header no longer panics; B is a root position, so h is met again outside
+    the visit of A and the wrong kind is reported. -/
+def w12 : World where
+  nodes := [⟨.response, some 0, [], 0, none⟩, ⟨.response, none, [2], 0, none⟩, ⟨.header, some 0, [], 0, none⟩]
+  roots := fun _ => [0, 1]
+  docOf := fun _ _ => none
+  target := fun _ _ _ => some (0, 1)
+
+theorem w12_regression_load_fails : (match load w12 20 0 with | .err _ => true | _ => false) = true := by decide
+theorem w12_spec : designates w12 5 2 = none := by decide
+
+/-- #13 / F-C02-13 (fixed cbb0d05). Object 0: a response value whose child 1 (a header under content.encoding,
+    formerly never visited) refers to the header 2. -/
+def w13 : World where
+  nodes := [⟨.response, none, [1], 0, none⟩, ⟨.header, some 0, [], 0, none⟩, ⟨.header, none, [], 0, none⟩]
+  roots := fun _ => [0, 2]
+  docOf := fun _ _ => none
+  target := fun _ _ _ => some (0, 2)
+
+theorem w13_regression_resolved :
+    (match load w13 20 0 with | .ok s => s.get 1 | _ => none) = designates w13 5 1 ∧ designates w13 5 1 = some 2 := by decide
+
+/-- F-C02-46 (fixed 9b25d89). Contexts 0 = root, 1 = /r/b/x.json. Objects: 0 path item /a = {$ref 0} ("#/paths/~1b");
+    1 path item /b = {$ref 1} ("../b/x.json#/paths/~1c"); 2 x.json /c (a value); 3 the resolver's copy of /b. -/
+def w46 : World where
+  nodes := [⟨.pathItem, some 0, [], 0, none⟩, ⟨.pathItem, some 1, [], 0, none⟩, ⟨.pathItem, none, [], 1, none⟩,
+            ⟨.pathItem, some 1, [], 0, some 1⟩]
+  roots := fun | 0 => [0, 1] | 1 => [2] | _ => []
+  docOf := fun _ t => if t = 1 then some 1 else none
+  target := fun _ t _ => if t = 0 then some (0, 3) else some (1, 2)
+
+theorem w46_regression_chain_resolved :
+    (match load w46 20 0 with | .ok s => (s.get 0, s.get 1, s.foreign) | _ => (none, none, true)) = (designates w46 5 0, designates w46 5 1, false)
+    ∧ designates w46 5 0 = some 2 := by decide
+
 /-! ### Non-vacuity: a non-trivial world satisfies the hypotheses of the partial theorem and loads -/
 
 /-- A mutual cycle across two documents: 0 root R = {$ref 0} → 1 (A, children 2); 2 = {$ref 1} → 3 (B, child 4);
     4 = {$ref 0} back to A. Every text is written in one place. -/
 def wCycle : World where
-  nodes := [⟨.schema, some 0, [], [], 0, none⟩, ⟨.schema, none, [2], [], 1, none⟩, ⟨.schema, some 1, [], [], 1, none⟩,
-            ⟨.schema, none, [4], [], 1, none⟩, ⟨.schema, some 0, [], [], 1, none⟩]
+  nodes := [⟨.schema, some 0, [], 0, none⟩, ⟨.schema, none, [2], 1, none⟩, ⟨.schema, some 1, [], 1, none⟩,
+            ⟨.schema, none, [4], 1, none⟩, ⟨.schema, some 0, [], 1, none⟩]
   roots := fun | 0 => [0] | 1 => [1, 3] | _ => []
   docOf := fun c t => if t = 0 ∧ c = 0 then some 1 else none
   target := fun _ t _ => match t with
